@@ -86,6 +86,19 @@ pub fn scc_history_case(fl: &str, id: &str, g: &GraphSpec, rng: &mut Rng, steps:
                     l.push(format!("connect {a} {b} 0"));
                     edges.push((a, b));
                 }
+                5 if !members.is_empty() => {
+                    // try_connect, refused when the edge is there (often followed by the removal of that edge)
+                    let (a, b) = if !edges.is_empty() && rng.chance(60) { edges[rng.below(edges.len())] } else { (pick(rng, &members), pick(rng, &members)) };
+                    l.push(format!("try_connect {a} {b} 0"));
+                    if let Some(i) = edges.iter().position(|e| *e == (a, b)) {
+                        if rng.chance(60) {
+                            edges.remove(i);
+                            l.push(format!("disconnect {a} {b}"));
+                        }
+                    } else {
+                        edges.push((a, b));
+                    }
+                }
                 4 if !edges.is_empty() => {
                     let i = rng.below(edges.len());
                     let (u, v) = edges.remove(i);
